@@ -663,9 +663,6 @@ func body(r *sim.Run) {
 	// weight so that v1, v2 and v2.1 algorithms and both event formats are all common
 	var pool []gmsl.RoomVersion
 	for _, v := range vers {
-		if v == gmsl.RoomVersionPseudoIDs {
-			continue // pseudo-ID rooms need a sender-key directory; not modelled
-		}
 		w := 1
 		switch v {
 		case "1", "12", "org.matrix.hydra.11":
@@ -735,11 +732,11 @@ func TestEngine(t *testing.T) {
 		Name: "roomsim",
 		Body: body,
 		Rule: func(p string) string {
-			return "one run = one room (version drawn from the whole registry except the pseudo-ID version, weighted towards the v1, v2 and v2.1 algorithms) with 2-5 users on 2-3 servers; 6-28 events by honest and Byzantine users (self/other membership, power levels, join rules, topic/name/custom state, messages), each built with the real EventBuilder.AddAuthEvents/Build on 1-3 tape-chosen prev events (forks = what partitions and delays produce) with tape-chosen, colliding and skewed timestamps; every merge and 1-3 explicit tip sets are state-resolution points: library vs reference resolver (C10), 2-5 re-invocations with permuted / duplicated inputs, another map-order salt and the other entry points (C11), every auth verdict through the C08 non-escalation monitor and the C09 stateless-model checks; non-trivial = at least one resolution of >=2 distinct state sets; distinct = distinct event-log hash"
+			return "one run = one room (version drawn from the whole registry, weighted towards the v1, v2 and v2.1 algorithms; in the pseudo-ID version users are known by per-room keys and a directory maps them back) with 2-5 users on 2-3 servers; 6-28 events by honest and Byzantine users (self/other membership, power levels, join rules, topic/name/custom state, messages), each built with the real EventBuilder.AddAuthEvents/Build on 1-3 tape-chosen prev events (forks = what partitions and delays produce) with tape-chosen, colliding and skewed timestamps; every merge and 1-3 explicit tip sets are state-resolution points: library vs reference resolver (C10), 2-5 re-invocations with permuted / duplicated inputs, another map-order salt and the other entry points (C11), every auth verdict through the C08 non-escalation monitor and the C09 stateless-model checks; non-trivial = at least one resolution of >=2 distinct state sets; distinct = distinct event-log hash"
 		},
 		Real: []string{"EventBuilder.AddAuthEvents/Build", "Allowed", "ResolveConflictsNew", "ResolveStateConflictsV2New", "ResolveConflicts (deprecated)", "ResolveStateConflicts (v1)", "ReverseTopologicalOrdering", "LineariseStateResponse", "allowerContext (via build-tagged overlay)"},
 		Stub: []string{"servers' event stores and arrival orders (DAG generator + input permutations)", "map iteration order (verifrt salt)", "clock (tape-chosen origin_server_ts)", "reference resolver harness/ref/stateres.go (oracle)"},
 		Assumptions: []string{"per-event Allowed verdicts (property C07) are trusted inside the reference resolver", "tie-breaking refinements R1-R6 of DESIGN.md §6.1 are part of the definition",
-			"v1 resolver is given the unconflicted auth events, one per state key, as it documents", "the pseudo-ID room version is not exercised"},
+			"v1 resolver is given the unconflicted auth events, one per state key, as it documents", "in the pseudo-ID room version events are not signed by the sender keys (signatures are not this engine's subject) and joins carry no mxid_mapping"},
 	})
 }
